@@ -104,13 +104,16 @@ CHECKS["C02"] = dict(
 )
 CHECKS["C08"] = dict(
     category="other",
-    technique="contract-based deductive verification: heap-shape contracts on the rule-tree surgery (real rule.py executed on every local tree shape up to 4 ancestors) + bounded reference RDR interpreter driver",
-    text="refinement / alternative / next_rule (and the constructors and parent setters they call) are executed on every local shape of a partially "
-         "built tree (stack top plus up to 4 ancestors of any kind and side: 1555 shapes per builder); posts: the new selector takes the "
-         "evaluation position of the (top of the) current rule, no written branch is dropped from the evaluation tree, the new branch is "
-         "returned, parent pointers follow the evaluation tree. Selection at evaluation time and instance construction are decided by the "
-         "bounded driver (trees of <= 5 branches in every nesting vs a reference ripple-down-rules interpreter).",
-    note="RWXNode abstracted as a record with a parent field; ancestor chains longer than 4 not explored; update_conclusion de-duplication bounded-only.",
+    technique="contract-based deductive verification: heap-shape contracts on the rule-tree surgery (every local tree shape up to 4 ancestors) + selection step lemmas of ExceptIf / Alternative / Next over abstract operand streams (loop invariants, real ast, z3) + bounded reference RDR interpreter driver",
+    text="refinement / alternative / next_rule (and the constructors and parent setters they call) are executed on every local shape of a partially built "
+         "tree (stack top plus up to 4 ancestors of any kind and side: 1555 shapes per builder); posts: the new selector takes the evaluation position of "
+         "the (top of the) current rule, no written branch is dropped, the new branch is returned, parent pointers follow the evaluation tree. "
+         "Evaluation time: ExceptIf / Alternative / Next._evaluate__ (with the real ElseIf / Union / OR bodies) over operand streams of any length with "
+         "arbitrary truth flags: which result is passed on, under whose bindings the other operand is evaluated and whose conclusions are selected "
+         "(except-if: the rule concludes iff the exception has no true result; else-if: the first branch that holds; also-if: every branch that holds). "
+         "Level 'other': ancestor chains > 4, update_conclusion's de-duplication and instance construction are decided by the bounded driver "
+         "(trees of <= 5 branches in every nesting vs a reference ripple-down-rules interpreter).",
+    note="RWXNode abstracted as a record with a parent field; rule trees are trees (operands disjoint); update_conclusion by contract in the step lemmas.",
 )
 CHECKS["C11"] = dict(
     category="other",
@@ -172,13 +175,14 @@ CHECKS["C03"] = dict(
 )
 CHECKS["C15"] = dict(
     category="other",
-    technique="contract-based deductive verification: step lemma per inference rule of PropertyDescriptorRelation (real ast executed with an abstract symbol graph / class diagram, loop rule over the edge streams, ghost log of inferred relations) + bounded all-orders driver against a naive fixpoint",
+    technique="contract-based deductive verification: step lemma per inference rule of PropertyDescriptorRelation (real ast executed with an abstract symbol graph / class diagram, loop rule over the edge streams, ghost log of inferred relations) + abstract composition lemma machine-checked in Lean 4 / Mathlib + bounded all-orders driver against a naive fixpoint",
     text="add_to_graph (new edge: write-back iff inferred, then super, inverse, transitive once each; known edge: nothing), infer_super_relations "
          "(every (domain, field) of super_relations yields exactly one inferred relation to the same target), super_relations (direct then role-taker "
          "fields), get_fields_of_superproperties (strict super-properties), infer_inverse_relation (field on the target, else on its role taker, else an "
          "error), get_associated_field_of_domain_type (exact class), the two transitive composition loops (every same-class edge leaving the target / "
          "entering the source is combined with the right end points) and the field write-back are discharged from the real bodies. "
-         "Level 'other': that these step lemmas compose to the full closure in every order is argued (module docstring) and measured: every order of "
+         "The composition lemma (an invariant over graph + pending facts preserved by inserting any pending fact with a superset of its consequences; nothing pending => closed; only consequences inserted => exactly the derivable facts) is machine-checked in Lean (lean/Closure.lean). "
+         "Level 'other': that add_to_graph's recursion is a schedule of that abstract procedure is argued, and measured: every order of "
          "assertion sets of size <= 4 (thorough 5) over 2 persons / 3 companies / a CEO role, incl. cycles and diamonds, fields and graph vs fixpoint.",
     note="Assumed: SymbolGraph.add_relation / relation queries (C14), class-diagram queries (C17), MonitoredContainer._update (C16); monotone histories.",
 )
